@@ -174,6 +174,8 @@ type Allocation struct {
 	PoolIndex    int
 	SubscriberID uint32
 	AllocatedAt  time.Time
+
+	blockIndex int // index of the port block within the pool entry
 }
 
 // ManagerConfig configures the NAT manager
@@ -227,6 +229,7 @@ type Manager struct {
 
 	// Public IP pool management
 	pool         []PoolEntry
+	usedBlocks   map[int]map[int]bool // pool index -> port block indexes currently assigned (guarded by poolMu)
 	poolMu       sync.RWMutex
 	allocations  map[uint32]*Allocation // private IP -> allocation
 	allocationMu sync.RWMutex
@@ -281,6 +284,7 @@ func NewManager(cfg ManagerConfig, logger *zap.Logger) (*Manager, error) {
 		logger:             logger,
 		config:             cfg,
 		pool:               make([]PoolEntry, 0),
+		usedBlocks:         make(map[int]map[int]bool),
 		allocations:        make(map[uint32]*Allocation),
 		subscriberIDs:      make(map[uint32]uint32),
 		portsPerSubscriber: portsPerSub,
@@ -394,6 +398,17 @@ func (m *Manager) buildFlags() uint32 {
 	return flags
 }
 
+// lowestFreeBlock returns the lowest port block index of pool entry i that no current
+// allocation holds, or -1 if every block is taken. The caller holds poolMu.
+func (m *Manager) lowestFreeBlock(i int) int {
+	for b := 0; b < m.pool[i].MaxSubscribers; b++ {
+		if !m.usedBlocks[i][b] {
+			return b
+		}
+	}
+	return -1
+}
+
 // AllocateNAT allocates NAT resources for a subscriber
 func (m *Manager) AllocateNAT(privateIP net.IP) (*Allocation, error) {
 	ip4 := privateIP.To4()
@@ -416,12 +431,15 @@ func (m *Manager) AllocateNAT(privateIP net.IP) (*Allocation, error) {
 	defer m.poolMu.Unlock()
 
 	var selectedPool *PoolEntry
-	var poolIndex int
+	var poolIndex, blockIndex int
 	for i := range m.pool {
 		if m.pool[i].Subscribers < m.pool[i].MaxSubscribers {
-			selectedPool = &m.pool[i]
-			poolIndex = i
-			break
+			if b := m.lowestFreeBlock(i); b >= 0 {
+				selectedPool = &m.pool[i]
+				poolIndex = i
+				blockIndex = b
+				break
+			}
 		}
 	}
 
@@ -429,8 +447,9 @@ func (m *Manager) AllocateNAT(privateIP net.IP) (*Allocation, error) {
 		return nil, fmt.Errorf("NAT pool exhausted: no available public IPs")
 	}
 
-	// Calculate port range for this subscriber (deterministic based on subscriber count)
-	portStart := uint16(m.portRangeStart + (selectedPool.Subscribers * m.portsPerSubscriber))
+	// Calculate port range for this subscriber from the lowest free block of the entry.
+	// (The subscriber count is not a block index once a block in the middle was released.)
+	portStart := uint16(m.portRangeStart + (blockIndex * m.portsPerSubscriber))
 	portEnd := portStart + uint16(m.portsPerSubscriber) - 1
 
 	// Get or create subscriber ID
@@ -444,6 +463,7 @@ func (m *Manager) AllocateNAT(privateIP net.IP) (*Allocation, error) {
 		PoolIndex:    poolIndex,
 		SubscriberID: subscriberID,
 		AllocatedAt:  time.Now(),
+		blockIndex:   blockIndex,
 	}
 
 	// Update eBPF map
@@ -476,6 +496,10 @@ func (m *Manager) AllocateNAT(privateIP net.IP) (*Allocation, error) {
 	m.allocationMu.Unlock()
 
 	selectedPool.Subscribers++
+	if m.usedBlocks[poolIndex] == nil {
+		m.usedBlocks[poolIndex] = make(map[int]bool)
+	}
+	m.usedBlocks[poolIndex][blockIndex] = true
 
 	// Log allocation event
 	if m.natLogger != nil {
@@ -522,6 +546,7 @@ func (m *Manager) DeallocateNAT(privateIP net.IP) error {
 	m.poolMu.Lock()
 	if allocation.PoolIndex < len(m.pool) {
 		m.pool[allocation.PoolIndex].Subscribers--
+		delete(m.usedBlocks[allocation.PoolIndex], allocation.blockIndex)
 	}
 	m.poolMu.Unlock()
 
